@@ -5,6 +5,9 @@ from concurrent.futures import ThreadPoolExecutor
 import vlib
 
 
+ERR_KINDS = '{"plain", "notexist", "exist", "permission", "eof", "unexpected-eof", "canceled", "deadline", "closed"}'
+
+
 def run(ctx):
     files_opts = ["{1}", "{1, 2}"] if ctx.quick else ["{1}", "{1, 2}", "{1, 2, 3}"]
     chunks_opts = [1, 2]
@@ -14,10 +17,10 @@ def run(ctx):
             for files in files_opts:
                 for nch in chunks_opts:
                     configs.append(dict(Files=files, NChunks=nch, MaxFaults=2, Atomic=atomic, Kind='"%s"' % kind,
-                                        Mode='"%s"' % mode, MaxKills=0, Emit="TRUE"))
+                                        Mode='"%s"' % mode, MaxKills=0, ErrKinds=ERR_KINDS, Emit="TRUE"))
     # design-level check of the disk atomic writer incl. kill points (no emission: the oracle of the
     # atomic stage is the invariant AtomicVisible itself)
-    design = [dict(Files="{1, 2}", NChunks=2, MaxFaults=2, Atomic="TRUE", Kind='"os"', Mode='"%s"' % m, MaxKills=1, Emit="FALSE")
+    design = [dict(Files="{1, 2}", NChunks=2, MaxFaults=2, Atomic="TRUE", Kind='"os"', Mode='"%s"' % m, MaxKills=1, ErrKinds=ERR_KINDS, Emit="FALSE")
               for m in ("all", "seq")]
 
     def one(c):
@@ -28,6 +31,7 @@ def run(ctx):
     cases = {}
     for r in results:
         for c in r["emit"].get("CASE", []):
+            c["errKinds"] = sorted(c["errKinds"])
             key = json.dumps([c["mode"], c["kind"], c["atomic"], c["nchunks"], c["init"], sorted(map(str, c["plan"]))])
             out = json.dumps([c["ret"], c["dest"], c["count"]])
             if key in cases and cases[key][0] != out:
